@@ -90,7 +90,7 @@ fn c04(rng: &mut Rng, _tier: &str, _idx: usize) -> Case {
         facts_to_fops(rng, &f, &flags, fv, 0, true, &mut c);
     }
     let (multi, inh) = facts_stats(&f, &mut c);
-    c.op("dump 0".to_string());
+    // no `dump`: only the scores are compared (alarms of C04 stay specific to the similarities)
     // pair classes, for the evidence histogram
     let n = f.terms.len() as u64;
     let children: BTreeSet<u32> = f.edges.iter().map(|e| e.1).collect();
